@@ -8,6 +8,7 @@ import (
 	"github.com/cnotch/ipchub/av/codec"
 	"github.com/cnotch/ipchub/av/codec/aac"
 	"github.com/cnotch/ipchub/av/codec/h264"
+	"github.com/cnotch/ipchub/av/codec/hevc"
 	"github.com/cnotch/ipchub/utils"
 	"github.com/cnotch/ipchub/utils/bits"
 )
@@ -57,7 +58,30 @@ func ascDecode(data []byte) Val {
 	return L(I(1), I(int64(rate)), I(int64(asc.Channels)))
 }
 
+func h265Decode(data []byte) Val {
+	var sps hevc.H265RawSPS
+	in := append([]byte{}, data...)
+	err := sps.Decode(in)
+	if err != nil {
+		return L(I(0))
+	}
+	return vobs(nil, sps.Width(), sps.Height(), sps.FrameRate(), sps.IsFixedFrameRate())
+}
+
+func vpsDecode(data []byte) Val {
+	var vps hevc.H265RawVPS
+	in := append([]byte{}, data...)
+	if err := vps.Decode(in); err != nil {
+		return L(I(0))
+	}
+	return L(I(1), I(int64(vps.Vps_max_sub_layers_minus1)), U(uint64(vps.Vps_num_units_in_tick)), U(uint64(vps.Vps_time_scale)))
+}
+
 func init() {
+	commands["h265"] = func(c Val) Val { return h265Decode(c.At(1).Bytes()) }
+	commands["h265b"] = func(c Val) Val { return h265Decode(c.Bytes()) }
+	commands["vps"] = func(c Val) Val { return vpsDecode(c.At(1).Bytes()) }
+	commands["vpsb"] = func(c Val) Val { return vpsDecode(c.Bytes()) }
 	commands["asc"] = func(c Val) Val { return ascDecode(c.At(1).Bytes()) }
 	commands["ascb"] = func(c Val) Val { return ascDecode(c.Bytes()) }
 	commands["h264"] = func(c Val) Val { return h264Decode(c.At(1).Bytes()) }
